@@ -661,6 +661,10 @@ impl Context {
                 let f = f.parse::<f64>().unwrap();
                 (format! { "{f}f64" }.into(), true)
             }
+            (Literal::Int(i), CodegenTy::OrderedF64) => {
+                let f = (*i) as f64;
+                (format! { "::pilota::OrderedFloat({f}f64)" }.into(), true)
+            }
             (Literal::Float(f), CodegenTy::OrderedF64) => {
                 let f = f.parse::<f64>().unwrap();
                 (format! { "::pilota::OrderedFloat({f}f64)" }.into(), true)
